@@ -62,7 +62,8 @@ class C10(Check):
         m = rng.choice([1, 1, 2, 4, 5])
         steps = m * rng.randint(max(2, 20 // m), 80 // m)
         edges_mode = stratum in ('S-edges', 'S-edges-vec', 'S-edges-run')      # S-edges-run: delayed edges, adaptive solver, run()
-        libs = ('lin', 'leak', 'integ') if edges_mode else rng.choice([('dd',), ('ddt',), ('dd', 'lin'), ('ddt', 'dd', 'lin'),
+        mixed = stratum == 'S-edges' and rng.random() < 0.35      # delayed edges AND in-operator delays on the same source
+        libs = (('dd', 'lin') if mixed else ('lin', 'leak', 'integ')) if edges_mode else rng.choice([('dd',), ('ddt',), ('dd', 'lin'), ('ddt', 'dd', 'lin'),
                                                                          ('cdd',)])
 
         def delays(r):
@@ -93,6 +94,14 @@ class C10(Check):
                 es[0][2]['delay'] = (rng.randint(2, 12) + rng.uniform(-0.4, 0.4)) * dt
                 es[1][2]['delay'] = rng.choice([1.0, 1.0, 0.5, 0.25]) * dt
         set_taus(rng, spec, dt, steps)
+        if mixed and not spec.get('circuits'):
+            # the edge delay EQUALS the delay parameter of the operator whose variable it leaves (two delayed reads of one
+            # variable that look back equally far when the model is compiled)
+            for e in spec['edges']:
+                nt = spec['nts'][spec['nodes'][e[0].split('/')[0]]]
+                tau = next((v['tau'] for v in nt['var'].values() if 'tau' in v), None)
+                if tau:
+                    e[2]['delay'] = tau
         cfg = {'dt': dt, 'steps': steps, 'm': m, 'level': 'func' if stratum in ('S-func', 'S-edges', 'S-edges-vec') else 'run',
                'backend': 'torch' if stratum == 'S-torch' else 'default',
                'solver': {'S-run-euler': rng.choice(['euler', 'euler', 'heun']), 'S-run-scipy': 'scipy',
@@ -101,6 +110,9 @@ class C10(Check):
                'adaptive_func': True if edges_mode else rng.random() < 0.5,
                'probes': [[rng.uniform(0.0, 2.0), rng.randint(0, 50)] for _ in range(6)],
                'hist_capacity': rng.choice([1, 2, 3, 8, 1024]),
+               # function level: delay PARAMETERS are arguments of the compiled function - after compiling, they are given
+               # other values and every delayed term must follow its own parameter
+               'retau': rng.choice([None, None, 1.5, 0.5]),
                # solve_ivp-style keywords a user may pass along with solver='scipy' (they must not change which driver
                # integrates a delayed model)
                'run_kw': rng.choice([{}, {}, {'method': 'RK45'}, {'method': 'RK23'}, {'method': 'DOP853'},
@@ -194,6 +206,15 @@ class C10(Check):
                 return res
             hi = list(anames).index('hist')
             N = len(np.asarray(args[1]).reshape(-1))
+            retau = {}
+            if cfg.get('retau') and not cfg['vectorize']:
+                for (n_, o_), i_ in net.inst.items():
+                    key_ = f'{n_}/{o_}/tau'
+                    if i_['lib'] in ('dd', 'ddt', 'cdd') and key_ in anames and i_['p']['tau'] > 0:
+                        i_['p']['tau'] = i_['p']['tau'] * cfg['retau']
+                        retau[list(anames).index(key_) - 2] = i_['p']['tau']
+                if retau:
+                    bump('delay_parameter_changed_after_compile')
             for pi, (t_units, seed_k) in enumerate(cfg['probes']):
                 queries = []
 
@@ -205,6 +226,8 @@ class C10(Check):
                 y = np.array([0.01 * (i + 1) + 0.001 * seed_k for i in range(N)])
                 a = [np.array(x, copy=True) if isinstance(x, np.ndarray) else x for x in args[2:]]
                 a[hi - 2] = H
+                for ai_, tv_ in retau.items():
+                    a[ai_] = np.asarray(tv_, dtype=np.asarray(a[ai_]).dtype).reshape(np.asarray(a[ai_]).shape)
                 try:
                     r = np.array(f(t_arg, y.copy(), *a), copy=True).reshape(-1)
                 except Exception as e:
